@@ -393,13 +393,25 @@ func c02Impl(line string) string {
 //     tok  = b<eom>:<bodyhex> | h:<msgType>   a packet arrives
 //          | +e | +n                          one more EED / env-change hook is registered
 //          | r                                the consumer calls NextPackageUntil once (round i uses spec i mod #specs)
-//     spec = nil | final | stop<j> | eof<j> | fail<j>   (outcome at the j-th callback of the call, otherwise
-//            stop at the final DONE)
+//     spec = nil | final | stop<j> | eof<j> | fail<j> | weof<j> | ueof<j>  (outcome at the j-th callback of the
+//            call, otherwise stop at the final DONE; weof = an error wrapping io.EOF, ueof = io.ErrUnexpectedEOF)
 // Answer: `<round> ;; … ;; left=<queued> E=<channel errors> PS=<packet size> H=[<hook calls>]`,
 // round = `[<seen by the callback> | …] -> <result>`, result = pkg:<shown> | eofpkg:<shown> | nil | eof |
 // cberr(<#eeds>:<msg numbers>:<errors.Is(err, the callback's error)>) | blocked | err
 
 var errCb = errors.New("callback failed")
+var errCbWrapsEOF = fmt.Errorf("error reading value: %w", io.EOF)
+
+// cbErrOf: the error the callback of a spec returns
+func cbErrOf(spec string) error {
+	switch {
+	case strings.HasPrefix(spec, "weof"):
+		return errCbWrapsEOF
+	case strings.HasPrefix(spec, "ueof"):
+		return io.ErrUnexpectedEOF
+	}
+	return errCb
+}
 
 func (e *rxEnv) addEEDHook() {
 	i := e.nEed
@@ -450,6 +462,16 @@ func (e *rxEnv) round(spec string) string {
 				if idx == j {
 					return false, errCb
 				}
+			case strings.HasPrefix(spec, "weof"): // an error that wraps io.EOF is not the io.EOF signal
+				j, _ = strconv.Atoi(spec[4:])
+				if idx == j {
+					return false, errCbWrapsEOF
+				}
+			case strings.HasPrefix(spec, "ueof"):
+				j, _ = strconv.Atoi(spec[4:])
+				if idx == j {
+					return false, io.ErrUnexpectedEOF
+				}
 			}
 			return final, nil
 		}
@@ -473,8 +495,8 @@ func (e *rxEnv) round(spec string) string {
 		for _, ee := range eedErr.EEDPackages {
 			nrs = append(nrs, strconv.Itoa(int(ee.MsgNumber)))
 		}
-		res = fmt.Sprintf("cberr(%d:%s:%v)", len(eedErr.EEDPackages), strings.Join(nrs, ","), errors.Is(err, errCb))
-	case errors.Is(err, errCb):
+		res = fmt.Sprintf("cberr(%d:%s:%v)", len(eedErr.EEDPackages), strings.Join(nrs, ","), errors.Is(err, cbErrOf(spec)))
+	case err != io.EOF && errors.Is(err, cbErrOf(spec)):
 		res = "cberr(0::true)"
 	case errors.Is(err, context.DeadlineExceeded):
 		res = "blocked"
